@@ -1,6 +1,7 @@
 package main
 
 import (
+	"sort"
 	"context"
 	"errors"
 	"fmt"
@@ -268,11 +269,25 @@ func (g *gen) num(d int, leaf bool) string {
 	case 14:
 		return "o1.c.d"
 	case 15:
+		switch g.s.Intn(4) {
+		case 0: // operands with more digits than a machine word holds: quotients that do not terminate
+			return g.pick([]string{"sqrt", "ln", "log"}) + "(abs(" + e(tNum) + ") / " + g.pick([]string{"3", "7", "9", "11", "13"}) + " + " + g.pick([]string{"1", "2", "0.5"}) + ")"
+		case 1:
+			return "exp(" + strconv.Itoa(1+g.s.Intn(9)) + " / " + g.pick([]string{"3", "7", "9", "11", "13"}) + ")"
+		case 2:
+			return "sqrt(" + g.pick(numNames) + " * " + g.pick(numNames) + " / 7 + 12345678901234567890.5)"
+		}
 		return "exp(" + strconv.Itoa(g.s.Intn(5)) + ")"
 	case 16:
 		return "roundCash(" + e(tNum) + ", 2)"
 	case 17:
 		if g.cfg.hostFns {
+			switch g.s.Intn(5) {
+			case 0:
+				return "f_med(" + g.pick([]string{"fs1", "fs1", "an1", "is1", "[3, 1, 2]"}) + ")"
+			case 1:
+				return "f_fill(" + g.pick([]string{"o1", "m1", "o1.c"}) + ", " + g.pick([]string{"an1", "an2", "[1, 2]"}) + ")"
+			}
 			return "f_sum(" + e(tNum) + ", " + strconv.Itoa(g.s.Intn(50)) + ")"
 		}
 		return g.numLit()
@@ -349,8 +364,11 @@ func (g *gen) str(d int, leaf bool) string {
 		return g.strLit()
 	case 14:
 		if g.cfg.hostFns {
-			if g.s.Intn(2) == 0 {
+			switch g.s.Intn(3) {
+			case 0:
 				return "f_cat(" + g.strLit() + ", [" + g.strLit() + "]...)"
+			case 1:
+				return "f_srt(" + g.pick([]string{"as1", "as1", "['b', 'a']", "an1"}) + ")"
 			}
 			return "f_cat(as1...)"
 		}
@@ -516,6 +534,7 @@ type dataSpec struct {
 	Variant int   `json:"variant"`
 	Nums    []int `json:"nums"`
 	Flags   []int `json:"flags"`
+	NoMap   bool  `json:"no_map,omitempty"` // the runner is never given a data map: formulas see no fields, locals create the map
 }
 
 type simpleStruct struct {
@@ -540,6 +559,7 @@ func genDataSpec(s *Stream) dataSpec {
 	for i := 0; i < 8; i++ {
 		d.Flags = append(d.Flags, s.Intn(8))
 	}
+	d.NoMap = s.Intn(8) == 0
 	return d
 }
 
@@ -635,6 +655,8 @@ func (d dataSpec) build(log *hostLog, loc *time.Location) map[string]interface{}
 			{"name": nil},
 		},
 		"as1": []string{"a", "b", strs[(d.Nums[3]+1000)%len(strs)]},
+		"fs1": []float64{float64(d.Nums[0]), float64(d.Nums[1]) / 4, float64(d.Nums[2]), -1},
+		"is1": []int{d.Nums[3], d.Nums[4]},
 		"an1": []interface{}{d.num(1), d.num(2), decimal.New(int64(d.Nums[3]), 1)},
 		"st1": simpleStruct{N: d.Nums[0], S: "st", F: 1.5},
 		"an2": []interface{}{d.num(0), d.num(1), d.num(2), d.num(3), d.num(4), d.num(5), d.num(6), d.num(7), d.num(0), d.num(2), d.num(4), d.num(6)},
@@ -689,6 +711,44 @@ func (d dataSpec) build(log *hostLog, loc *time.Location) map[string]interface{}
 				return "", err
 			}
 			return strings.Join(parts, ""), nil
+		}
+		// host functions that work on what they are handed in place, as a median or a sort does:
+		// what they are handed is theirs, the caller's slices stay as they were
+		m["f_med"] = func(xs []float64) (float64, error) {
+			log.add("f_med(" + strconv.Itoa(len(xs)) + ")")
+			if err := log.tick(); err != nil {
+				return 0, err
+			}
+			if len(xs) == 0 {
+				return 0, nil
+			}
+			sort.Float64s(xs)
+			return xs[len(xs)/2], nil
+		}
+		m["f_srt"] = func(xs []string) (string, error) {
+			log.add("f_srt(" + strconv.Itoa(len(xs)) + ")")
+			if err := log.tick(); err != nil {
+				return "", err
+			}
+			sort.Sort(sort.Reverse(sort.StringSlice(xs)))
+			for i := range xs {
+				xs[i] += "!"
+			}
+			return strings.Join(xs, ""), nil
+		}
+		m["f_fill"] = func(mm map[string]interface{}, xs []interface{}) (int, error) {
+			log.add("f_fill(" + strconv.Itoa(len(mm)) + "," + strconv.Itoa(len(xs)) + ")")
+			if err := log.tick(); err != nil {
+				return 0, err
+			}
+			for k := range mm {
+				mm[k] = nil
+			}
+			mm["added"] = 1
+			for i := range xs {
+				xs[i] = "overwritten"
+			}
+			return len(mm) + len(xs), nil
 		}
 		m["f_map"] = func(mm map[string]int) (int, error) {
 			t := 0
